@@ -862,6 +862,27 @@ def cmdline_strategy(ctx, weak=False):
                      st.sampled_from(BAD), st.sampled_from(UNKNOWN), st.sampled_from(DANGLING))
 
 
+# every ordered pair of options around a fixed set of inputs: what one option does must not depend on where another one stands
+PAIR_OPTS = [["-v"], ["-nostdlib"], ["-static"], ["-s"], ["-pthread"], ["-c"], ["-S"], ["-E"], ["-emit-qbe"], ["-g"], ["-O2"], ["-Wall"], ["-pipe"], ["-nostdinc"],
+             ["-D", "x=1"], ["-Ux"], ["-I", "inc"], ["-include", "cfg.h"], ["-L", "lib"], ["-lm"], ["-l", ":libz.a"], ["-Wl,-z,now"], ["-Wa,--x"], ["-Wp,-P"],
+             ["-o", "out"], ["-x", "c"], ["-x", "none"], ["-x", "assembler"]]
+PAIR_INPUTS = [["a.c", "b.o"], ["a.c"], ["m.s", "n.S", "lib.a"]]
+
+
+def pairs_enum(ctx):
+    k = 0
+    for a in PAIR_OPTS:
+        for b in PAIR_OPTS:
+            if a is b:
+                continue
+            for ins in PAIR_INPUTS:
+                k += 1
+                if ctx.tier != "thorough" and ins is not PAIR_INPUTS[0] and (k + ctx.seed) % 4:
+                    continue
+                for layout in (a + b + ins, a + ins + b, ins + a + b, a + ins[:1] + b + ins[1:]):
+                    yield {"t": k % 3, "args": layout}
+
+
 def weak_strategy(ctx):
     return cmdline_strategy(ctx, True).filter(lambda c: any(a in [w[0] for w in WEAK] or a.startswith("-std=") for a in c["args"]))
 
@@ -929,6 +950,7 @@ def sources(ctx):
     return [
         Source("cmdline", check, strategy=lambda c: cmdline_strategy(c, False), examples={"quick": 4000, "thorough": 150000}),
         Source("undocumented", check, strategy=weak_strategy, examples={"quick": 640, "thorough": 20000}),
+        Source("pairs", check, enum=pairs_enum),
     ]
 
 
